@@ -281,7 +281,7 @@ func runChainConn(c chainCase, h layer4.Handler, fell *bool) (sig, desc string) 
 	vrecMu.Unlock()
 	chunks := make([][]byte, len(c.chunks))
 	copy(chunks, c.chunks)
-	sc := &sconn{chunks: chunks, eof: true, remote: &net.TCPAddr{IP: net.IPv4(127, 0, 0, 1), Port: 40001}}
+	sc := &sconn{chunks: chunks, eof: true, eofWithLast: len(c.stream)%3 == 1, remote: &net.TCPAddr{IP: net.IPv4(127, 0, 0, 1), Port: 40001}}
 	cx := layer4.WrapConnection(sc, make([]byte, 0, 2048), zap.NewNop())
 	err := h.Handle(cx)
 	need := c.routes[0]["match"].([]map[string]any)[0]["vneed"].(map[string]any)["n"].(int)
